@@ -155,7 +155,7 @@ Qed.
 (* ------------------------------------------------------------------------------------------------ *)
 (** * exec / run refine plan1 / plan *)
 
-Definition pst_of (st : dstate) : pst := mkP (d_scale st) (d_attr st).
+Definition pst_of (st : dstate) : pst := mkP (d_scale st) (d_attr st) (d_nattr st).
 
 (* what one command (resp. one activation) guarantees *)
 Definition exec_ok (c : cmd) : Prop :=
@@ -297,8 +297,8 @@ Definition exec_last (c : cmd) : Prop :=
   forall fl st w l0, last_inv w l0 st ->
   last_inv w l0 (snd (fst (fst (exec c fl st)))).
 
-Lemma last_inv_set st w l0 p sc an at_ :
-  last_inv w l0 st -> last_inv w l0 (mkD p (d_last st) (d_window st) sc an at_).
+Lemma last_inv_set st w l0 p sc an at_ na :
+  last_inv w l0 st -> last_inv w l0 (mkD p (d_last st) (d_window st) sc an at_ na).
 Proof. intros [H1 H2]. split; cbn; auto. Qed.
 
 Lemma last_inv_finish st w l0 : last_inv w l0 st -> last_inv w l0 (finish st).
@@ -342,13 +342,13 @@ Qed.
 (* ------------------------------------------------------------------------------------------------ *)
 (** * The DRAW statement *)
 
-Lemma current_mk p l w sc an at_ b : current (mkG (Some p) l w sc an at_ b) = p.
+Lemma current_mk p l w sc an at_ b na : current (mkG (Some p) l w sc an at_ b na) = p.
 Proof. reflexivity. Qed.
 
 Theorem draw_plan g cmds :
   g_text g = false -> g_angle g = 0 -> angle_free cmds = true ->
   let r := draw g cmds in
-  let pl := plan cmds fresh (mkP (g_scale g) (g_attr g)) in
+  let pl := plan cmds fresh (mkP (g_scale g) (g_attr g) (g_nattr g)) in
   dr_status r = pl_status pl
   /\ current (dr_state r) = pen_after (current g) (pl_moves pl)
   /\ dr_segs r = segs_of (current g) (pl_moves pl)
@@ -356,10 +356,10 @@ Theorem draw_plan g cmds :
   /\ g_angle (dr_state r) = 0.
 Proof.
   intros Ht Ha Haf. cbn zeta. unfold draw. rewrite Ht.
-  set (st0 := mkD (current g) (g_last g) (g_window g) (g_scale g) (g_angle g) (g_attr g)).
+  set (st0 := mkD (current g) (g_last g) (g_window g) (g_scale g) (g_angle g) (g_attr g) (g_nattr g)).
   destruct (run cmds fresh st0) as [[st sg] stat] eqn:E.
   destruct (run_plan cmds Haf fresh st0 Ha _ _ _ E) as (ps & ms & Hp & Hps & Hang & Hw & Hpen & Hsg).
-  unfold pst_of in Hp. cbn [d_scale d_attr st0] in Hp. rewrite Hp.
+  unfold pst_of in Hp. cbn [d_scale d_attr d_nattr st0] in Hp. rewrite Hp.
   subst st0. cbn [d_pen d_window] in Hpen, Hsg, Hw.
   unfold dr_status, dr_state, dr_segs, pl_status, pl_moves, pl_pst. cbn [fst snd].
   rewrite current_mk. cbn [g_scale g_attr g_angle].
@@ -382,7 +382,7 @@ Theorem draw_point_fn g cmds :
   /\ (g_window g = false -> dr_status (draw g cmds) = Done -> g_last g' = current g').
 Proof.
   intros Ht. cbn zeta. unfold draw. rewrite Ht.
-  set (st0 := mkD (current g) (g_last g) (g_window g) (g_scale g) (g_angle g) (g_attr g)).
+  set (st0 := mkD (current g) (g_last g) (g_window g) (g_scale g) (g_angle g) (g_attr g) (g_nattr g)).
   assert (Hinv0 : last_inv (g_window g) (g_last g) st0) by (split; auto).
   pose proof (run_last cmds fresh st0 _ _ Hinv0) as Hinv.
   destruct (run cmds fresh st0) as [[st sg] stat]. cbn [fst] in Hinv.
@@ -498,17 +498,17 @@ Lemma plan_prefix_N l fl ps : plan (PreN :: l) fl ps = plan l (fst fl, true) ps.
 Proof. erewrite plan_cons_done; [|reflexivity]. destruct (plan l (fst fl, true) ps) as [[a b] c]. reflexivity. Qed.
 
 Lemma plan_scale n l fl ps : in_range (1, 255) n = true ->
-  plan (SetScale n :: l) fl ps = plan l fl (mkP n (p_attr ps)).
+  plan (SetScale n :: l) fl ps = plan l fl (mkP n (p_attr ps) (p_nattr ps)).
 Proof.
   intros H. erewrite plan_cons_done; [|cbn [plan1]; rewrite H; reflexivity].
-  destruct (plan l fl (mkP n (p_attr ps))) as [[a b] c]. reflexivity.
+  destruct (plan l fl (mkP n (p_attr ps) (p_nattr ps))) as [[a b] c]. reflexivity.
 Qed.
 
 Lemma plan_colour n l fl ps : in_range (-99999, 99999) n = true ->
-  plan (SetColour n :: l) fl ps = plan l fl (mkP (p_scale ps) n).
+  plan (SetColour n :: l) fl ps = plan l fl (mkP (p_scale ps) (clamp_attr (p_nattr ps) n) (p_nattr ps)).
 Proof.
   intros H. erewrite plan_cons_done; [|cbn [plan1]; rewrite H; reflexivity].
-  destruct (plan l fl (mkP (p_scale ps) n)) as [[a b] c]. reflexivity.
+  destruct (plan l fl (mkP (p_scale ps) (clamp_attr (p_nattr ps) n) (p_nattr ps))) as [[a b] c]. reflexivity.
 Qed.
 
 (* X: the substring runs with fresh prefixes of its own; the caller's pending prefixes survive it *)
@@ -520,4 +520,99 @@ Lemma plan_sub name body l fl ps : pl_status (plan body fresh ps) = Done ->
 Proof.
   intros H. destruct (plan body fresh ps) as [[a b] c] eqn:E. cbn in H. subst c.
   erewrite plan_cons_done by (rewrite plan1_sub, E; reflexivity). reflexivity.
+Qed.
+
+(* ------------------------------------------------------------------------------------------------ *)
+(** * Colours: what C stores is an attribute of the mode, so every requested segment has one *)
+
+Lemma draw_colour_spec na n : draw_colour na n = clamp_attr na n.
+Proof. reflexivity. Qed.
+
+Lemma clamp_attr_range na n : 1 <= na -> 0 <= clamp_attr na n < na.
+Proof. unfold clamp_attr. lia. Qed.
+
+Lemma clamp_attr_id na n : 0 <= n < na -> clamp_attr na n = n.
+Proof. unfold clamp_attr. lia. Qed.
+
+Definition attr_inv (na : Z) (st : dstate) : Prop := d_nattr st = na /\ 0 <= d_attr st < na.
+Definition segs_attr_ok (na : Z) (sg : list seg) : Prop := Forall (fun s => 0 <= s_attr s < na) sg.
+
+Definition exec_attr (c : cmd) : Prop :=
+  forall fl st na, attr_inv na st ->
+  attr_inv na (snd (fst (fst (exec c fl st)))) /\ segs_attr_ok na (snd (fst (exec c fl st))).
+
+Lemma run_attr_of_Forall l : Forall exec_attr l ->
+  forall fl st na, attr_inv na st ->
+  attr_inv na (fst (fst (run l fl st))) /\ segs_attr_ok na (snd (fst (run l fl st))).
+Proof.
+  induction 1 as [|c l Hc Hl IH]; intros fl st na Hinv; cbn [run]; [split; [exact Hinv|constructor]|].
+  specialize (Hc fl st na Hinv).
+  destruct (exec c fl st) as [[[fl1 st1] sg1] stat1]. cbn [fst snd] in Hc. destruct Hc as [Hi1 Hs1].
+  destruct stat1; cbn [fst snd]; auto.
+  specialize (IH fl1 st1 na Hi1). destruct (run l fl1 st1) as [[st2 sg2] stat2]. cbn [fst snd] in *.
+  destruct IH as [Hi2 Hs2]. split; [exact Hi2|]. apply Forall_app. split; assumption.
+Qed.
+
+Lemma step_attr st fl p1 na : attr_inv na st ->
+  attr_inv na (fst (step st fl p1)) /\ segs_attr_ok na (snd (step st fl p1)).
+Proof.
+  intros [H1 H2]. unfold step, set_pen. cbn [fst snd]. split; [split; cbn; assumption|].
+  destruct (fst fl); constructor; [cbn; exact H2 | constructor].
+Qed.
+
+Lemma exec_attr_all : forall c, exec_attr c.
+Proof.
+  apply cmd_ind_nested.
+  - intros c Hns fl st na Hinv.
+    assert (Hnone : attr_inv na st /\ segs_attr_ok na []) by (split; [exact Hinv|constructor]).
+    destruct c; try (exfalso; eapply Hns; reflexivity); cbn [exec]; unfold raise_ifc.
+    + destruct (in_range draw_range_step n); [|exact Hnone]. unfold rel_move.
+      destruct (offset st (dir_offset d n)) as [o|]; [|exact Hnone].
+      pose proof (step_attr st fl (draw_endpoint (fst (d_pen st)) (snd (d_pen st)) (fst o) (snd o)) na Hinv) as H.
+      destruct (step st fl _) as [st' sg]. exact H.
+    + destruct (in_range draw_range_x x && in_range draw_range_y y); [|exact Hnone]. unfold rel_move.
+      destruct (offset st (x, y)) as [o|]; [|exact Hnone].
+      pose proof (step_attr st fl (draw_endpoint (fst (d_pen st)) (snd (d_pen st)) (fst o) (snd o)) na Hinv) as H.
+      destruct (step st fl _) as [st' sg]. exact H.
+    + destruct (in_range draw_range_x x && in_range draw_range_y y); [|exact Hnone].
+      pose proof (step_attr st fl (x, y) na Hinv) as H. destruct (step st fl (x, y)) as [st' sg]. exact H.
+    + exact Hnone.
+    + exact Hnone.
+    + destruct (in_range draw_range_scale n); [|exact Hnone]. cbn [fst snd]. split; [|constructor].
+      destruct Hinv as [H1 H2]. split; cbn; assumption.
+    + destruct (in_range draw_range_attr n); [|exact Hnone]. cbn [fst snd]. split; [|constructor].
+      destruct Hinv as [H1 H2]. split; [exact H1|]. cbn [set_attr d_attr]. rewrite draw_colour_spec, H1.
+      apply clamp_attr_range. lia.
+    + destruct (in_range draw_range_angle_a n); [|exact Hnone]. cbn [fst snd]. split; [|constructor].
+      destruct Hinv as [H1 H2]. split; cbn; assumption.
+    + destruct (in_range draw_range_angle_ta n); [|exact Hnone]. cbn [fst snd]. split; [|constructor].
+      destruct Hinv as [H1 H2]. split; cbn; assumption.
+    + exact Hnone.
+    + exact Hnone.
+  - intros n body Hbody fl st na Hinv. rewrite exec_sub.
+    pose proof (run_attr_of_Forall body Hbody fresh st na Hinv) as H.
+    destruct (run body fresh st) as [[st1 sg1] stat1]. cbn [fst snd] in H. destruct H as [Hi Hs].
+    destruct stat1; cbn [fst snd]; split; auto.
+    destruct Hi as [H1 H2]. unfold finish. destruct (d_window st1); split; cbn; assumption.
+Qed.
+
+(* the DRAW statement: if the colour in force is an attribute of the mode (every statement that sets it
+   clamps), it stays one and every requested segment carries one: the pixel write cannot be out of range *)
+Theorem draw_attr g cmds :
+  0 <= g_attr g < g_nattr g ->
+  0 <= g_attr (dr_state (draw g cmds)) < g_nattr g
+  /\ g_nattr (dr_state (draw g cmds)) = g_nattr g
+  /\ Forall (fun s => 0 <= s_attr s < g_nattr g) (dr_segs (draw g cmds)).
+Proof.
+  intros Ha. unfold draw. destruct (g_text g).
+  - unfold dr_state, dr_segs. cbn [fst snd]. repeat split; try lia. constructor.
+  - set (st0 := mkD (current g) (g_last g) (g_window g) (g_scale g) (g_angle g) (g_attr g) (g_nattr g)).
+    assert (H0 : attr_inv (g_nattr g) st0) by (split; [reflexivity|exact Ha]).
+    assert (Hall : Forall exec_attr cmds) by (apply Forall_forall; intros c _; apply exec_attr_all).
+    pose proof (run_attr_of_Forall cmds Hall fresh st0 _ H0) as H.
+    destruct (run cmds fresh st0) as [[st sg] stat]. cbn [fst snd] in H. destruct H as [[H1 H2] Hs].
+    unfold dr_state, dr_segs. cbn [fst snd g_attr g_nattr].
+    assert (Hf : d_attr (finish st) = d_attr st /\ d_nattr (finish st) = d_nattr st).
+    { unfold finish. destruct (d_window st); split; reflexivity. }
+    destruct Hf as [F1 F2]. destruct stat; rewrite ?F1, ?F2; repeat split; try lia; exact Hs.
 Qed.
